@@ -59,8 +59,12 @@ class Project:
 
     # -- user-side file operations (explicit, strictly increasing mtimes) ------
     def _tick(self):
+        """mtime for the next user action: all distinct, a millisecond apart (so an implementation that rounds mtimes to
+        seconds cannot tell two edits apart by time), and alternately later and EARLIER than everything before (a file
+        restored from an archive, `mv` of an older file, a clock that was set back): redo must react to any difference"""
         self.clock += 1
-        return T0 + self.clock
+        k = self.clock
+        return T0 + (k if k % 2 else -k) * 0.001
 
     def _write(self, name, text, replace=False):
         path = self.p / name
